@@ -52,11 +52,21 @@ def build(n, edges, orders=None, shuffle=None):
     return m
 
 
+def refused(n, edges, ex):
+    """ring perception raised on this graph: the graph itself (as the driver knows it) and the exception class"""
+    return {'atoms': [{'z': 6}] * n, 'bonds': [[a, b, 1] for a, b in edges], 'rings': [], 'rc': 0, 'ncomp': 0, 'comps': [], 'ainr': [0] * n, 'asz': [[]] * n,
+            'binr': [], 'sizes2': [], 'exc': type(ex).__name__}
+
+
 def observe_graph(case):
+    from chython.exceptions import ImplementationError
     rnd = random.Random(case['rs'])
-    m = build(case['n'], case['e'])
-    m2 = build(case['n'], case['e'], shuffle=rnd)
-    return record(m, m2)
+    try:
+        m = build(case['n'], case['e'])
+        m2 = build(case['n'], case['e'], shuffle=rnd)
+        return record(m, m2)
+    except (ImplementationError, KeyError, IndexError) as ex:
+        return refused(case['n'], case['e'], ex)
 
 
 def connected(n, edges):
@@ -103,10 +113,18 @@ def observe_mol(case):
         m = smiles(case['smi'])
     except Exception as e:
         return {'skip': type(e).__name__}
-    if case.get('renumber'):
-        m, _ = chy.renumbered(strip(m), rnd)
-    m2, _ = chy.renumbered(strip(m), rnd)
-    return record(m, m2)
+    order = list(m._atoms)
+    idx = {n: i + 1 for i, n in enumerate(order)}
+    edges = [(idx[a], idx[b]) for a, b, bd in m.bonds() if bd._order != 8]
+    try:
+        if case.get('renumber'):
+            m, _ = chy.renumbered(strip(m), rnd)
+        m2, _ = chy.renumbered(strip(m), rnd)
+        return record(m, m2)
+    except Exception as ex:
+        if type(ex).__name__ != 'ImplementationError':
+            raise
+        return refused(len(order), edges, ex)
 
 
 def strip(m):
@@ -126,10 +144,12 @@ def observe_sdf(case):
     return out
 
 
-def ring_assembly(rnd):
+def ring_assembly(rnd, holder=None):
     """SMILES of a random assembly: chain of rings joined by fusion / spiro / bridge / bond, optional macrocycle"""
     from chython import MoleculeContainer
     m = MoleculeContainer()
+    if holder is not None:
+        holder.append(m)      # (the object under construction, for the case that ring perception raises while it is being built)
     def ring(k):
         first = None
         prev = None
@@ -255,9 +275,18 @@ def observe_edits(case):
 
 def observe_assembly(case):
     rnd = random.Random(case['rs'])
-    m = ring_assembly(rnd)
-    m2, _ = chy.renumbered(m, rnd)
-    return record(m, m2)
+    holder = []
+    try:
+        m = ring_assembly(rnd, holder)
+        m2, _ = chy.renumbered(m, rnd)
+        return record(m, m2)
+    except Exception as ex:
+        if type(ex).__name__ != 'ImplementationError':
+            raise
+        m = holder[0]
+        order = list(m._atoms)
+        idx = {n: i + 1 for i, n in enumerate(order)}
+        return refused(len(order), [(idx[a], idx[b]) for a, b, bd in m.bonds()], ex)
 
 
 def run(ck):
